@@ -111,6 +111,11 @@ class ExtMixin:
                 return lin_norm(la if is_min else lb)
         ia, ib = interval(a), interval(b)
         lo = hi = None
+        if ia and ib and None not in ia and None not in ib:
+            if ia[1] <= ib[0]:
+                return a if is_min else b
+            if ib[1] <= ia[0]:
+                return b if is_min else a
         if ia and ib:
             f = min if is_min else max
             if is_min:
